@@ -389,3 +389,10 @@ seed('c20-kpiece-importance-uninit', 'C20', [(KPH, "                double impor
 # neutral rewrites
 seed('c20-n-rrt-timing-log', 'C20', [(RRTC, "    while (!ptc)\n    {\n        /* sample random state (with goal biasing) */", "    const time::point t0 = time::now();\n    OMPL_DEBUG(\"%s: entering the main loop after %f s\", getName().c_str(), time::seconds(time::now() - t0));\n    while (!ptc)\n    {\n        /* sample random state (with goal biasing) */")], None)
 seed('c20-n-localseed-order', 'C20', [(RNGC, "    uniDist_.reset();\n    normalDist_.reset();\n    sphericalDataPtr_->reset();", "    sphericalDataPtr_->reset();\n    normalDist_.reset();\n    uniDist_.reset();")], None)
+
+# ---- added after the blind round 2 ---------------------------------------------------------------------------------
+seed('c15-bounds-draw-thinned', 'C15', [(PLDC, "                foundSample = isInAnyPhs(informedVector);\n", "                foundSample = isInAnyPhs(informedVector) && keepSample(informedVector);\n")], 'R15a')
+seed('c15-phs-draw-not-thinned', 'C15', [(PLDC, "                foundSample = keepSample(informedVector);\n", "                foundSample = true;\n")], 'R15a')
+seed('c15-diameter-tolerance', 'C15', [(PHSC, "    if (dataPtr_->transverseDiameter_ != transverseDiameter)", "    if (std::abs(dataPtr_->transverseDiameter_ - transverseDiameter) > 1E-9)")], 'R15f')
+seed('c15-n-diameter-negated-eq', 'C15', [(PHSC, "    if (dataPtr_->transverseDiameter_ != transverseDiameter)", "    if (!(dataPtr_->transverseDiameter_ == transverseDiameter))")], None)
+seed('c17-perturb-loop-start-unconditional', 'C17', [(PSC, "        int posTemp = (index_before >= 0) ? index_before : pos_before + 1;", "        int posTemp = pos_before;")], 'R17f')
